@@ -861,10 +861,20 @@ func (p *Parser) parseIfExpression() ast.Expression {
 
 			p.nextToken()
 
+			// Every "else if" puts the rest of the chain one
+			// level further down the tree.
+			p.depth++
+			if p.depth > maxDepth {
+				p.tooDeep()
+				return nil
+			}
+			nested := p.parseIfExpression()
+			p.depth--
+
 			expression.Alternative = &ast.BlockStatement{
 				Statements: []ast.Statement{
 					&ast.ExpressionStatement{
-						Expression: p.parseIfExpression(),
+						Expression: nested,
 					},
 				},
 			}
